@@ -71,11 +71,21 @@ func runC02(ctx *Ctx) {
 		vectors = append(vectors, v)
 	}
 	vectors = append(vectors, [5]int{16, 16, 2, 16, 16}, [5]int{20, 20, 0, 20, 20}, [5]int{5, 9, 9, 9, 9}, [5]int{4, 2, 7, 1, 3})
+	// populations beyond 255/256 UEs (every 8-bit counter, identifier octet or sequence that is per run rather than per UE wraps)
+	vectors = append(vectors, [5]int{260, 260, 1, 260, 260})
+	if ctx.Thorough {
+		vectors = append(vectors, [5]int{520, 520, 0, 0, 0}, [5]int{300, 300, 300, 300, 300})
+	}
 	cut := false
 	runVec := func(l *report.Local, v [5]int, emu n2.EmuConfig, ch refamf.Choices, acfg refamf.Config, cs string, nontrivial bool, picks []int) {
 		emu.Reg, emu.Pdu, emu.Svc, emu.Rel, emu.Dereg = v[0], v[1], v[2], v[3], v[4]
+		horizon := 60 * time.Second
+		if v[0] > acfg.MaxUE {
+			acfg.MaxUE = v[0] // provision as many subscribers as the run registers
+			horizon = 300 * time.Second
+		}
 		a := refamf.New(acfg, ch, codec)
-		res := n2.Run(n2.Opts{YAML: emu.YAML(), AMF: a, Horizon: 60 * time.Second})
+		res := n2.Run(n2.Opts{YAML: emu.YAML(), AMF: a, Horizon: horizon})
 		out := n2judge(r, cs, res, a, func(u *refamf.UE) string { return c02expected(v, u.Index) }, v[0], picks)
 		// the number of each procedure the AMF saw must be the configured (clamped) one
 		st.add(a)
